@@ -119,6 +119,14 @@ theorem qsort_safe_size_witness :
     1 * 2 ^ 63 ≤ 2 ^ 63 ∧ ¬ (3 * 2 ^ 63 < 2 ^ 64) := by
   refine ⟨eq_wrap_of_match _ (by decide +kernel), by decide, by decide⟩
 
+/-- witness for `nmemb = a.size` in `qsort_safe` (the caller's obligation: the array really has `nmemb` elements; with an
+    unknown object size nothing can check it): `nmemb = 4` on a 3-element array reads element 3 (`Fault.idx 3`; in the harness
+    the guard page) -/
+theorem qsort_safe_nmemb_witness :
+    (match qsortChk allFixed natCmp (okArgs 4 4) ⟨#[3, 2, 1], [], 0⟩ with
+     | .error (.idx i) => i == 3
+     | _ => false) = true := by decide +kernel
+
 /-- (3, code WITHOUT the `pntz` repair — the statement holds for every `fx`) `_qsort_s_chk` on an array of exactly `nmemb`
     elements, EVERY comparator (inconsistent ones included), either `ntz`: the call returns (terminates; every element index `< nmemb`; no pointer below `base`; `lp[]`, `ar[]` within capacity)
     and keeps the element count.  Hypotheses the proof forces: the byte size fits 63 bits and `3*size` fits 64 bits (the
